@@ -35,7 +35,7 @@ META = {
 
 THEOREMS = [
     "C12_pinned",
-    "C12_cfg_partial",
+    "C12_cfg",
     "C12_cfg_geometry",
     "C12_required_productions",
     "C12_cfg_montepy",
@@ -442,9 +442,7 @@ CAUSES = [
     ("PL:letter-c", lambda t: "PL:letter-c" in t),
     ("CellParam:indexed-repeat", lambda t: "CellParam:indexed-repeat" in t),
     ("Entry:multiply-real", lambda t: "Entry:multiply-real" in t),
-    ("Data:tr+shortcut", lambda t: "Data:tr" in t and any(x.startswith(("Entry:jump", "Entry:rep", "Entry:interp", "Entry:ilog", "Entry:multiply")) for x in t)),
     ("Data:multiply", lambda t: "Entry:multiply" in t and any(x.startswith("Data:") for x in t)),
-    ("Interp:end-zero", lambda t: "Interp:end-zero" in t),
     ("MatParam:elib", lambda t: "MatParam:elib" in t),
     ("Zaid:mixed", lambda t: "Zaid:mixed" in t),
     ("Sdef:empty", lambda t: "Sdef:empty" in t),
@@ -605,14 +603,12 @@ def gen_file(rng, tables):
 
 
 def _tame(es):
-    """entries without the shortcut forms covered by the card-level known findings (a whole file would only
-    repeat them): multiply and interpolation are spelled out"""
+    """entries without the shortcut form covered by the card-level known findings F4/F5 (a whole file would only
+    repeat them): multiply is spelled out"""
     out = []
     for e in es:
-        if e[0] in ("mul", "interp") and not any(isinstance(v, float) for v in g12.entry_values(e)):
+        if e[0] == "mul":
             out += [["real", g12._spell(v)] for v in g12.entry_values(e)]
-        elif e[0] in ("mul", "interp"):
-            out += [["real", repr(float(v))] for v in g12.entry_values(e)]
         else:
             out.append(e)
     return out
@@ -836,7 +832,7 @@ def run(chk):
         "C12_cfg covers cell cards, surface cards, number-list / MODE / material / thermal data cards; tally, FS, SDEF, "
         "SI/SP/SB/DS with an option letter and FC/SC cards are validated on the real parser only",
         "G restrictions applied by the generator: nothing between # and its operand; no blank directly after the '(' of a "
-        "FILL/TRCL value; tabs are not generated; physical lines <= 80 columns",
+        "FILL/TRCL value; no line that BEGINS with # (vertical format); tabs are not generated; physical lines <= 80 columns",
     ]
     chk.trusted_base = [
         "Lean 4.33.0 kernel",
